@@ -116,7 +116,10 @@ def run_shard(shard):
         mode = "sig" if rng.random() < .2 else "app"
         r = rng.random()
         try:
-            if r < .55:
+            if r < .06:
+                from . import c01
+                recipe, mode = c01.first_statement_family(rng), "app"
+            elif r < .55:
                 recipe = recipes.Gen(rng, version=vgen, mode=mode, min_subs=rng.choice([0, 1]), call_bias=.05).program()
             elif r < .75 and mode == "app":
                 recipe = c02.mutual_family(rng)
